@@ -335,7 +335,10 @@ def r07_2(ctx):
             elif kind == "int":
                 verdicts.append((True, "integer"))
             elif kind == "validated":
-                verdicts.append((True, "validated by " + d))
+                if strict[0] and d in WEAK_VALIDATORS:
+                    verdicts.append((False, "validated by %s only, which accepts reserved words (`function`, `new`, ...): as a binding / reference identifier such text is not a program" % d.split("::")[-1]))
+                else:
+                    verdicts.append((True, "validated by " + d))
             elif kind == "param":
                 fn, idx = d
                 if depth > 4:
@@ -398,6 +401,7 @@ def r07_2(ctx):
         return True, "; ".join(sorted({t for ok, t in verdicts}))[:300]
 
     _site_sym = {}
+    strict = [False]     # the identifier under judgement is a binding / reference (Ident), not a property name (IdentName)
 
     def _sym_expr_of(site):
         return _site_sym.get(id(site), site)
@@ -438,9 +442,22 @@ def r07_2(ctx):
             if pos:
                 r.ob(key, True, C.mloc(b, site), "position exemption: becomes a %s, read back as a string by the directive parser" % pos.split("::")[-1])
                 continue
+            sty = (site.get("ty") or site.get("adt") or "")
+            strict[0] = sty in (AST + "Ident", AST + "BindingIdent")
+            if not strict[0]:
+                # an IdentName converted into an Ident (`quote_ident!(..).into()`) ends up as a binding / reference all the same
+                for p in list(reversed(ps))[:4]:
+                    if p.get("k") in ("MethodCall", "Call") and (p.get("method") in ("into",) or (p.get("callee") or "").endswith(("::into", "::from"))) \
+                            and (p.get("ty") or "") in (AST + "Ident", AST + "BindingIdent"):
+                        strict[0] = True
             ok, text = judge(b, site, leaves)
             r.ob(key, ok, C.mloc(b, site), text)
     return r
+
+
+# validators that check identifier *characters* only (fine for property names, not for bindings / references)
+WEAK_VALIDATORS = {"swc_ecma_utils::is_valid_prop_ident", "swc_ecma_ast::Ident::is_valid_start", "swc_ecma_ast::Ident::is_valid_continue",
+                   "swc_ecma_ast::Ident::is_valid_ascii_start", "swc_ecma_ast::Ident::is_valid_ascii_continue"}
 
 
 def _describe(leaves):
@@ -550,8 +567,35 @@ def r07_6(ctx):
     return r
 
 
+def r07_7(ctx):
+    r = Rule("R07.7", "copies of user expressions that go into generated options (props / emits of defineComponent) are taken after the node's children were traversed",
+             "a default value copied before the traversal keeps its JSX: the copy in `props: {x: {default: <i/>}}` is never lowered")
+    from . import c10
+    copiers = {}
+    for role in ("props_extractor", "emits_extractor"):
+        b = C.role(ctx, role)
+        if b is not None:
+            copiers[b["path"]] = role
+    n = 0
+    for hb, mb in c10._method_bodies(ctx):
+        sites = [(i, t) for i, t in calls(mb) if callee_name(t) in copiers]
+        if not sites:
+            continue
+        r.saw(mb["path"])
+        g = C.cfg_of(ctx, mb)
+        trav = c10._traversal_blocks(mb, ctx.facts)
+        for i, t in sites:
+            n += 1
+            ok = any(g.dominates(tb, i) and i in g.reach_after(tb) for tb in trav)
+            r.ob("%s: %s runs after the children were traversed" % (hb["name"], copiers[callee_name(t)]), ok, C.mloc(mb, t),
+                 "dominated by the traversal in bb%s" % trav if ok else "called before (or without) visit_mut_children_with: expressions it copies out of the arguments are still unlowered")
+    if not n:
+        r.ob("call sites of the option extractors found", None if not copiers else False, "-", "no hook calls %s" % sorted(copiers.values()))
+    return r
+
+
 def rules(ctx):
-    out = [r07_1, r07_2, r07_3, r07_4, r07_6]
+    out = [r07_1, r07_2, r07_3, r07_4, r07_6, r07_7]
     if ctx.tier == "thorough":
         from . import controls
         out.append(controls.control_rule([("R07.1", r07_1, ["jsx_empty", "jsx_conversion"])]))
